@@ -24,15 +24,15 @@ Definition f_seq (f : sfrag) : option Z := a_seq_id (sf_sent f).
 Definition f_chan (f : sfrag) : list Z := a_channel (sf_sent f).
 
 (* a line of the schedule: a fragment, a Gatehouse wrapper, or a line the reader skips (unparsable / unknown sentence) *)
-Inductive item := IFrag (f : sfrag) | IWrapper (g : gatehouse) | ISkipped (e : libexn).
+Inductive asm_item := IFrag (f : sfrag) | IWrapper (g : gatehouse) | ISkipped (e : libexn).
 
-Definition schedule := list item.
+Definition asm_schedule := list asm_item.
 
-Fixpoint frags (s : schedule) : list sfrag :=
+Fixpoint asm_frags (s : asm_schedule) : list sfrag :=
   match s with
   | [] => []
-  | IFrag f :: r => f :: frags r
-  | _ :: r => frags r
+  | IFrag f :: r => f :: asm_frags r
+  | _ :: r => asm_frags r
   end.
 
 (* the (sequence id, channel) stream a fragment travels in; an absent sequence id counts as -1 *)
@@ -68,36 +68,36 @@ Record WF_frags (fs : list sfrag) : Prop := mkWF {
             Z.of_nat (length (frags_of (sf_msg g) p)) = f_cnt g
 }.
 
-Definition WF (s : schedule) : Prop :=
-  WF_frags (frags s) /\ forall e, In (ISkipped e) s -> skippable e = true.
+Definition WF (s : asm_schedule) : Prop :=
+  WF_frags (asm_frags s) /\ forall e, In (ISkipped e) s -> skippable e = true.
 
 (* ---------------------------------------------------------------- C03: what is delivered, and when *)
 
-Record delivery := mkDelivery {
+Record asm_delivery := mkDelivery {
   d_raw : bytes; d_payload : bytes; d_bits : bits; d_valid : bool; d_seq_id : option Z; d_channel : list Z }.
 
 (* what the properties observe of a delivered sentence *)
-Definition delivery_of (a : ais_sentence) : delivery :=
+Definition delivery_of (a : ais_sentence) : asm_delivery :=
   mkDelivery (c_raw (a_common a)) (a_payload a) (a_bits a) (c_is_valid (a_common a)) (a_seq_id a) (a_channel a).
 
-Fixpoint zrange (lo : Z) (n : nat) : list Z :=
-  match n with O => [] | S n' => lo :: zrange (lo + 1) n' end.
+Fixpoint asm_zrange (lo : Z) (n : nat) : list Z :=
+  match n with O => [] | S n' => lo :: asm_zrange (lo + 1) n' end.
 
 (* the fragments of message m among l, in fragment-number order 1, 2, ..., cnt *)
 Definition parts_in_order (m : nat) (cnt : Z) (l : list sfrag) : list sfrag :=
-  flat_map (fun k => filter (fun f => f_num f =? k) (frags_of m l)) (zrange 1 (Z.to_nat cnt)).
+  flat_map (fun k => filter (fun f => f_num f =? k) (frags_of m l)) (asm_zrange 1 (Z.to_nat cnt)).
 
-Fixpoint join_lf (l : list bytes) : bytes :=
+Fixpoint asm_join_lf (l : list bytes) : bytes :=
   match l with
   | [] => []
   | [x] => x
-  | x :: r => x ++ 10 :: join_lf r
+  | x :: r => x ++ 10 :: asm_join_lf r
   end.
 
 (* the message completed by fragment f, given everything that has arrived up to and including f *)
-Definition spec_assemble (f : sfrag) (arrived : list sfrag) : delivery :=
+Definition spec_assemble (f : sfrag) (arrived : list sfrag) : asm_delivery :=
   let parts := map sf_sent (parts_in_order (sf_msg f) (f_cnt f) arrived) in
-  mkDelivery (join_lf (map (fun p => c_raw (a_common p)) parts))
+  mkDelivery (asm_join_lf (map (fun p => c_raw (a_common p)) parts))
              (concat (map a_payload parts))
              (concat (map a_bits parts))
              (forallb (fun p => c_is_valid (a_common p)) parts)
@@ -108,7 +108,7 @@ Definition completes (f : sfrag) (arrived : list sfrag) : bool :=
   Z.of_nat (length (frags_of (sf_msg f) arrived)) =? f_cnt f.
 
 (* one list of deliveries per line; `before` = the fragments that arrived earlier *)
-Fixpoint spec_deliveries_from (before : list sfrag) (s : schedule) : list (list delivery) :=
+Fixpoint spec_deliveries_from (before : list sfrag) (s : asm_schedule) : list (list asm_delivery) :=
   match s with
   | [] => []
   | IFrag f :: r =>
@@ -117,15 +117,15 @@ Fixpoint spec_deliveries_from (before : list sfrag) (s : schedule) : list (list 
   | _ :: r => [] :: spec_deliveries_from before r
   end.
 
-Definition spec_deliveries (s : schedule) : list (list delivery) := spec_deliveries_from [] s.
+Definition spec_deliveries (s : asm_schedule) : list (list asm_delivery) := spec_deliveries_from [] s.
 
 (* ---------------------------------------------------------------- C18: which wrapper each delivery carries *)
 
-Inductive event := EWrap (g : gatehouse)    (* a wrapper line was read *)
+Inductive asm_event := EWrap (g : gatehouse)    (* a wrapper line was read *)
                  | EDeliver                 (* this line completed a message (single or assembled) *)
                  | ENone.                   (* anything else: fragment of an incomplete message, skipped line *)
 
-Fixpoint spec_wrapper_from (pending : option gatehouse) (evs : list event) : list (list (option gatehouse)) :=
+Fixpoint spec_wrapper_from (pending : option gatehouse) (evs : list asm_event) : list (list (option gatehouse)) :=
   match evs with
   | [] => []
   | EWrap g :: r => [] :: spec_wrapper_from (Some g) r
@@ -133,25 +133,25 @@ Fixpoint spec_wrapper_from (pending : option gatehouse) (evs : list event) : lis
   | ENone :: r => [] :: spec_wrapper_from pending r
   end.
 
-Definition spec_wrapper (evs : list event) : list (list (option gatehouse)) := spec_wrapper_from None evs.
+Definition spec_wrapper (evs : list asm_event) : list (list (option gatehouse)) := spec_wrapper_from None evs.
 
 (* the events of a sequence of lines given as (outcome of parsing, outcome of the tag block queue) and, per line,
    whether the reader delivered a message there.  A wrapper line counts when it was read without error. *)
-Definition line_event (line : M sentence * option exn) (delivered : bool) : event :=
+Definition line_event (line : M sentence * option exn) (delivered : bool) : asm_event :=
   if delivered then EDeliver
   else match line with
        | (Ok (SGatehouse g), None) => EWrap g
        | _ => ENone
        end.
 
-Fixpoint events (lines : list (M sentence * option exn)) (delivered : list bool) : list event :=
+Fixpoint asm_events (lines : list (M sentence * option exn)) (delivered : list bool) : list asm_event :=
   match lines, delivered with
-  | l :: ls, d :: ds => line_event l d :: events ls ds
+  | l :: ls, d :: ds => line_event l d :: asm_events ls ds
   | _, _ => []
   end.
 
 (* the events of a schedule, with the deliveries the C03 specification prescribes *)
-Fixpoint schedule_events (s : schedule) (spec : list (list delivery)) : list event :=
+Fixpoint schedule_events (s : asm_schedule) (spec : list (list asm_delivery)) : list asm_event :=
   match s, spec with
   | i :: r, d :: ds =>
       (match d with
@@ -162,14 +162,14 @@ Fixpoint schedule_events (s : schedule) (spec : list (list delivery)) : list eve
   end.
 
 (* the lines of a schedule as a reader's loop sees them: (outcome of parsing, outcome of the tag block queue) *)
-Definition item_line (i : item) : M sentence * option exn :=
+Definition item_line (i : asm_item) : M sentence * option exn :=
   match i with
   | IFrag f => (Ok (SAis (sf_sent f)), None)
   | IWrapper g => (Ok (SGatehouse g), None)
   | ISkipped e => (Raise (Lib e), None)
   end.
 
-Definition schedule_lines (s : schedule) : list (M sentence * option exn) := map item_line s.
+Definition schedule_lines (s : asm_schedule) : list (M sentence * option exn) := map item_line s.
 
 Definition has_delivery {A} (out : list A) : bool := match out with [] => false | _ :: _ => true end.
 
@@ -179,3 +179,41 @@ Definition fresh_line (l : M sentence * option exn) : Prop :=
   | (Ok (SAis a), _) => a_wrapper a = None
   | _ => True
   end.
+
+(* ---------------------------------------------------------------- a decision procedure for WF (used by the harness to
+   confirm that what it feeds to the oracles lies inside the quantifier of the theorems; sound by wf_check_sound) *)
+
+Definition asm_optz_eqb (a b : option Z) : bool :=
+  match a, b with Some x, Some y => x =? y | None, None => true | _, _ => false end.
+Fixpoint asm_lz_eqb (a b : list Z) : bool :=
+  match a, b with [] , [] => true | x :: a', y :: b' => (x =? y) && asm_lz_eqb a' b' | _, _ => false end.
+
+Definition asm_range_ok (f : sfrag) : bool := (1 <=? f_num f) && (f_num f <=? f_cnt f).
+
+Definition asm_same_ok (f g : sfrag) : bool :=
+  negb (Nat.eqb (sf_msg f) (sf_msg g)) ||
+  (asm_optz_eqb (f_seq f) (f_seq g) && asm_lz_eqb (f_chan f) (f_chan g) && (f_cnt f =? f_cnt g)).
+
+Fixpoint asm_distinct_ok (fs : list sfrag) : bool :=
+  match fs with
+  | [] => true
+  | f :: r => forallb (fun g => negb (Nat.eqb (sf_msg g) (sf_msg f) && (f_num g =? f_num f))) r && asm_distinct_ok r
+  end.
+
+Definition asm_slot_eqb2 (a b : Z * list Z) : bool := (fst a =? fst b) && asm_lz_eqb (snd a) (snd b).
+
+Fixpoint asm_overlap_ok (p rest : list sfrag) : bool :=
+  match rest with
+  | [] => true
+  | f :: r =>
+      (f_single f ||
+       forallb (fun g => f_single g || negb (asm_slot_eqb2 (f_slot g) (f_slot f)) || Nat.eqb (sf_msg g) (sf_msg f) ||
+                         (Z.of_nat (length (frags_of (sf_msg g) p)) =? f_cnt g)) p)
+      && asm_overlap_ok (p ++ [f]) r
+  end.
+
+Definition asm_wf_frags_check (fs : list sfrag) : bool :=
+  forallb asm_range_ok fs && forallb (fun f => forallb (asm_same_ok f) fs) fs && asm_distinct_ok fs && asm_overlap_ok [] fs.
+
+Definition asm_wf_check (s : asm_schedule) : bool :=
+  asm_wf_frags_check (asm_frags s) && forallb (fun i => match i with ISkipped e => skippable e | _ => true end) s.
